@@ -884,6 +884,14 @@ class Engine:
   def getattr(self, obj, attr):
     if isinstance(obj, Obj):
       if not hasattr(obj, attr):
+        # abstract instance of a real class: methods / properties not supplied by the contract are taken from the class source
+        cls = obj.__dict__.get('class_ref')
+        raw = inspect.getattr_static(cls, attr, None) if cls is not None else None
+        if isinstance(raw, property):
+          return self.call_closure(self.load_function(raw.fget), [obj], {})
+        if isinstance(raw, types.FunctionType):
+          self.trusted.add(f'inlined (no separate contract): {cls.__module__}.{cls.__qualname__}.{attr}')
+          return SymCallable(lambda en, *a, **k: en.call_closure(en.load_function(raw), [obj] + list(a), dict(k)), f'{cls.__name__}.{attr}')
         raise Unsupported(f'abstract object has no attribute {attr}')
       return getattr(obj, attr)
     if isinstance(obj, SymSeq):
